@@ -90,7 +90,7 @@ func init() {
 	register(&PropCheck{
 		ID: "C07", Pkgs: []string{"segment"}, FnRe: `^VerifC07_`, Level: "model_checking",
 		Post: c07Post,
-		Rule: "the decoder's acceptance condition on fully symbolic header / payload bytes is extracted by symbolic execution, normalised to a GF(2) parity-check system (fails closed if any operation is not affine), and one solver query per error class asks for a non-zero error pattern in the kernel",
+		Rule: "the decoder's acceptance condition on fully symbolic header / payload bytes is extracted by symbolic execution, normalised to a GF(2) parity-check system (fails closed if any operation is not affine), and one solver query per error class asks for a non-zero error pattern in the kernel; when the decoder accepts through several paths (a union of affine spaces) every ordered pair of paths is checked as well: the input is eliminated over GF(2) and the solver is asked for an error pattern of the class satisfying the residual affine system; such a counterexample is replayed with the input the elimination yields",
 		Assume: []string{"composition step: for an affine acceptance condition A.x=c, x and x^e are both accepted only if A.e=0 (one line of linear algebra, not a solver query)"},
 	})
 }
